@@ -327,7 +327,7 @@ func isDataString(v ssa.Value, depth int) bool {
 			if f.String() == "(reflect.Value).String" {
 				return true
 			}
-			if f.Pkg != nil && f.Pkg.Pkg.Path() == twigPath && strings.EqualFold(f.Name(), "tostring") {
+			if isTwigFn(f) && strings.EqualFold(f.Name(), "tostring") {
 				return true
 			}
 		}
